@@ -15,7 +15,7 @@ import (
 // denote the same bytes as when it was parsed, and a span too short for the
 // URI must be refused leaving the structure untouched.
 
-type uriView struct{ scheme, user, pass, host, port, params, headers []byte }
+type uriView struct{ scheme, user, pass, host, port, params, headers, long, short []byte }
 
 func viewOf(u *sipsp.PsipURI, b []byte) (v uriView, ok bool) {
 	for _, f := range []sipsp.PField{u.Scheme, u.User, u.Pass, u.Host, u.Port, u.Params, u.Headers} {
@@ -23,12 +23,18 @@ func viewOf(u *sipsp.PsipURI, b []byte) (v uriView, ok bool) {
 			return v, false
 		}
 	}
-	return uriView{u.Scheme.Get(b), u.User.Get(b), u.Pass.Get(b), u.Host.Get(b), u.Port.Get(b), u.Params.Get(b), u.Headers.Get(b)}, true
+	// the derived views move with the URI too (Long() / Short() / Flat())
+	l, sh := u.Long(), u.Short()
+	if int(l.Offs)+int(l.Len) > len(b) || int(sh.Offs)+int(sh.Len) > len(b) {
+		return v, false
+	}
+	return uriView{u.Scheme.Get(b), u.User.Get(b), u.Pass.Get(b), u.Host.Get(b), u.Port.Get(b), u.Params.Get(b), u.Headers.Get(b), l.Get(b), sh.Get(b)}, true
 }
 
 func (a uriView) eq(b uriView) bool {
 	return bytes.Equal(a.scheme, b.scheme) && bytes.Equal(a.user, b.user) && bytes.Equal(a.pass, b.pass) && bytes.Equal(a.host, b.host) &&
-		bytes.Equal(a.port, b.port) && bytes.Equal(a.params, b.params) && bytes.Equal(a.headers, b.headers)
+		bytes.Equal(a.port, b.port) && bytes.Equal(a.params, b.params) && bytes.Equal(a.headers, b.headers) &&
+		bytes.Equal(a.long, b.long) && bytes.Equal(a.short, b.short)
 }
 
 // C11URIMoves checks one URI text sitting at buf[f]. moves are further buffer
@@ -78,8 +84,8 @@ func C11URIMoves(what string, buf []byte, f sipsp.PField, moves []int) (res stri
 			return fmt.Sprintf("%s URI %q moved to %d: a component points outside the buffer", what, txt, np)
 		}
 		if !v.eq(orig) || u.PortNo != portNo || u.URIType != typ {
-			return fmt.Sprintf("%s URI %q moved to %d: components changed: user %q->%q host %q->%q port %q->%q params %q->%q headers %q->%q",
-				what, txt, np, orig.user, v.user, orig.host, v.host, orig.port, v.port, orig.params, v.params, orig.headers, v.headers)
+			return fmt.Sprintf("%s URI %q moved to %d: components changed: user %q->%q host %q->%q port %q->%q params %q->%q headers %q->%q long %q->%q short %q->%q",
+				what, txt, np, orig.user, v.user, orig.host, v.host, orig.port, v.port, orig.params, v.params, orig.headers, v.headers, orig.long, v.long, orig.short, v.short)
 		}
 		return ""
 	}
